@@ -54,7 +54,7 @@ def ops_key(sc):
 
 
 def batch_size(prop):
-    return {'C15': 4, 'C14': 10, 'C02': 40}.get(prop, 100)
+    return {'C15': 2, 'C14': 10, 'C02': 40}.get(prop, 100)
 
 
 def simplifications(sc):
